@@ -139,22 +139,24 @@ def _extract_m(outdir, release=False):
 
 
 def _extract_f(outdir):
-    """fixtures crate (self-test of the rules), M-mode with its own roots"""
+    """fixtures crate (self-test of the zero-expected-count scans): monomorphic walk from its roots + generic facts"""
     if not os.path.isdir(FIXTURES):
         return
-    target = os.path.join(WORK, 'tm')  # shares dependency artefacts with the harness
+    target = os.path.join(WORK, 'tf')
     shutil.copyfile(os.path.join(REPO, 'Cargo.lock'), os.path.join(FIXTURES, 'Cargo.lock'))
     fdir = os.path.join(outdir, 'fx')
     os.makedirs(fdir, exist_ok=True)
-    for attempt in (0, 1):
-        _rm_fingerprints(target, 'fixtures-')
-        env = _env({'OPQ_MODE': 'M', 'OPQ_CRATE': 'fixtures', 'OPQ_OUT_DIR': fdir, 'OPQ_SUITES': 'all',
-                    'CARGO_TARGET_DIR': target})
-        _run_cargo(['cargo', '+nightly', 'check', '--lib', '--offline'], FIXTURES, env, 'fixtures')
-        if os.path.exists(os.path.join(fdir, 'm-DONE')):
-            return
-        shutil.rmtree(target, ignore_errors=True)
-    raise MachineryError('fixtures: driver produced no fact files')
+    for mode, marker in (('M', 'm-DONE'), ('G', 'g-fx.json')):
+        for attempt in (0, 1):
+            _rm_fingerprints(target, 'fixtures-')
+            env = _env({'OPQ_MODE': mode, 'OPQ_CRATE': 'fixtures', 'OPQ_OUT_DIR': fdir, 'OPQ_SUITES': 'all', 'OPQ_TAG': 'fx',
+                        'CARGO_TARGET_DIR': target})
+            _run_cargo(['cargo', '+nightly', 'check', '--lib', '--offline'], FIXTURES, env, 'fixtures(%s)' % mode)
+            if os.path.exists(os.path.join(fdir, marker)):
+                break
+            shutil.rmtree(target, ignore_errors=True)
+        else:
+            raise MachineryError('fixtures(%s): driver produced no fact files' % mode)
 
 
 G_CONFIGS = {
@@ -182,8 +184,8 @@ def ensure(thorough=False):
             _extract_m(outdir); did.append('M')
         if not os.path.exists(os.path.join(outdir, 'rel', 'm-DONE')):
             _extract_m(outdir, release=True); did.append('M(release cfg)')
-        if os.path.isdir(FIXTURES) and not os.path.exists(os.path.join(outdir, 'fx', 'm-DONE')):
-            _extract_f(outdir); did.append('F')
+        if os.path.isdir(FIXTURES) and not (os.path.exists(os.path.join(outdir, 'fx', 'm-DONE')) and os.path.exists(os.path.join(outdir, 'fx', 'g-fx.json'))):
+            _extract_f(outdir); did.append('fixtures')
         if thorough:
             for tag in ('default', 'nodefault'):
                 if not os.path.exists(os.path.join(outdir, 'g-%s.json' % tag)):
